@@ -2,7 +2,7 @@
   Helper definitions and run invariants for `CachedProofs/LayerB/Retained.lean` (C03 at ACTION granularity, from the
   ENGLISH premises: "the demand fits", "operations on the key one after another", "the time-to-live has not elapsed").
 
-    1  `CAct`: one action of a client, as a relation that keeps the WEIGHTS, the RESULT of the call and the exact
+    1  `KAct`: one action of a client, as a relation that keeps the WEIGHTS, the RESULT of the call and the exact
        successor position (`CTrans` of Inv.lean forgets them)
     2  sums (`lsum`, `sumTo`)
     3  `NoShut`: no `shutdown()` was ever requested
@@ -56,93 +56,93 @@ def deriveDel (b : BState) (id : Nat) (uw : Option Int) : Option Int :=
 
 /-- One action of client `i`, as a relation: one constructor per branch of `clientAct` outside `shutdown()`.
     (`shutting`, `shut`: the branches taken only once a `shutdown()` has been requested; nothing is said about them.) -/
-inductive CAct (b : BState) (i : Nat) : BState → Prop where
-  | shutting (r : Req) (b' : BState) : b.cl[i]? = some (.start r) → b.g.shutting = true → CAct b i b'
-  | shut (pc : CPc) (b' : BState) : b.cl[i]? = some pc → pc.shutPos = true → CAct b i b'
+inductive KAct (b : BState) (i : Nat) : BState → Prop where
+  | shutting (r : Req) (b' : BState) : b.cl[i]? = some (.start r) → b.g.shutting = true → KAct b i b'
+  | shut (pc : CPc) (b' : BState) : b.cl[i]? = some pc → pc.shutPos = true → KAct b i b'
   | startPutBad (k v w ttl) : b.cl[i]? = some (.start (.putW k v w ttl)) → b.g.shutting = false → w ≤ 0 →
-      CAct b i (finishCall b i (.panic .weightNotPositive))
+      KAct b i (finishCall b i (.panic .weightNotPositive))
   | startPut (k v w ttl) : b.cl[i]? = some (.start (.putW k v w ttl)) → b.g.shutting = false → 0 < w →
-      CAct b i (setClient b i (.putPresent k v w ttl))
-  | startDelete (k) : b.cl[i]? = some (.start (.delete k)) → b.g.shutting = false → CAct b i (setClient b i (.delMark k))
-  | startGet (k) : b.cl[i]? = some (.start (.get k)) → b.g.shutting = false → CAct b i (setClient b i (.getStore k))
-  | startWeight : b.cl[i]? = some (.start .weight) → b.g.shutting = false → CAct b i (setClient b i .weightRead)
+      KAct b i (setClient b i (.putPresent k v w ttl))
+  | startDelete (k) : b.cl[i]? = some (.start (.delete k)) → b.g.shutting = false → KAct b i (setClient b i (.delMark k))
+  | startGet (k) : b.cl[i]? = some (.start (.get k)) → b.g.shutting = false → KAct b i (setClient b i (.getStore k))
+  | startWeight : b.cl[i]? = some (.start .weight) → b.g.shutting = false → KAct b i (setClient b i .weightRead)
   | startUpsert (k v w ttl rm) : b.cl[i]? = some (.start (.upsert k v w ttl rm)) → b.g.shutting = false →
-      CAct b i (setClient b i (.upUpdate k v w ttl rm))
-  | startGetRef (k) : b.cl[i]? = some (.start (.getRef k)) → b.g.shutting = false → CAct b i (setClient b i (.refStore k))
+      KAct b i (setClient b i (.upUpdate k v w ttl rm))
+  | startGetRef (k) : b.cl[i]? = some (.start (.getRef k)) → b.g.shutting = false → KAct b i (setClient b i (.refStore k))
   | startMget (ks iter) : b.cl[i]? = some (.start (.mget ks iter)) → b.g.shutting = false →
-      CAct b i (mgetNext b i ks [] iter)
+      KAct b i (mgetNext b i ks [] iter)
   | putPresentHit (k v w ttl) : b.cl[i]? = some (.putPresent k v w ttl) → b.g.store.contains k = true →
-      CAct b i (spotFinish b i (.rejected .keyAlreadyExists))
+      KAct b i (spotFinish b i (.rejected .keyAlreadyExists))
   | putPresentOk (k v w ttl) : b.cl[i]? = some (.putPresent k v w ttl) → b.g.store.contains k = false →
-      CAct b i (setClient b i (.idNext k v w ttl))
+      KAct b i (setClient b i (.idNext k v w ttl))
   | idNext (k v w ttl) : b.cl[i]? = some (.idNext k v w ttl) →
-      CAct b i (setClient { b with g := { b.g with nextId := b.g.nextId + 1 } } i
+      KAct b i (setClient { b with g := { b.g with nextId := b.g.nextId + 1 } } i
         (.send (match ttl with
           | some t => Cmd.putTtl b.g.nextId (b.g.cfg.hashOf k) w k v t
           | none => Cmd.put b.g.nextId (b.g.cfg.hashOf k) w k v)))
-  | sendDead (cmd) : b.cl[i]? = some (.send cmd) → b.g.worker = .dead → CAct b i (finishCall b i .err)
+  | sendDead (cmd) : b.cl[i]? = some (.send cmd) → b.g.worker = .dead → KAct b i (finishCall b i .err)
   | sendOk (cmd) : b.cl[i]? = some (.send cmd) → b.g.worker ≠ .dead →
-      CAct b i (finishCall { b with g := { b.g with queue := b.g.queue ++ [(cmd, some b.g.acks.length)],
+      KAct b i (finishCall { b with g := { b.g with queue := b.g.queue ++ [(cmd, some b.g.acks.length)],
                                                       acks := b.g.acks ++ [.pending] } } i (.ack b.g.acks.length .pending))
   | delMark (k) : b.cl[i]? = some (.delMark k) →
-      CAct b i (setClient { b with g := { b.g with store := match b.g.store.get? k with
+      KAct b i (setClient { b with g := { b.g with store := match b.g.store.get? k with
         | some e => b.g.store.set k { e with soft := true }
         | none => b.g.store } } i (.send (.delete k)))
   | getMiss (k st) : b.cl[i]? = some (.getStore k) → (∀ e, b.g.store.get? k = some e → e.alive b.g.now = false) →
-      CAct b i (finishCall { b with g := { b.g with stats := st } } i (.value none))
+      KAct b i (finishCall { b with g := { b.g with stats := st } } i (.value none))
   | getHit (k e) : b.cl[i]? = some (.getStore k) → b.g.store.get? k = some e → e.alive b.g.now = true →
-      CAct b i (setClient { b with g := { b.g with stats := { b.g.stats with hits := b.g.stats.hits + 1 } } } i (.getPool k e.value))
+      KAct b i (setClient { b with g := { b.g with stats := { b.g.stats with hits := b.g.stats.hits + 1 } } } i (.getPool k e.value))
   | getPool (k v g1) : b.cl[i]? = some (.getPool k v) →
       g1 = { b.g with pool := g1.pool, bufq := g1.bufq, stats := g1.stats } →
-      CAct b i (finishCall { b with g := g1 } i (.value (some v)))
+      KAct b i (finishCall { b with g := g1 } i (.value (some v)))
   | mgetMiss (k ks acc iter st) : b.cl[i]? = some (.mgetStore k ks acc iter) →
       (∀ e, b.g.store.get? k = some e → e.alive b.g.now = false) →
-      CAct b i (mgetNext { b with g := { b.g with stats := st } } i ks (acc ++ [none]) iter)
+      KAct b i (mgetNext { b with g := { b.g with stats := st } } i ks (acc ++ [none]) iter)
   | mgetHit (k ks acc iter e) : b.cl[i]? = some (.mgetStore k ks acc iter) → b.g.store.get? k = some e →
       e.alive b.g.now = true →
-      CAct b i (setClient { b with g := { b.g with stats := { b.g.stats with hits := b.g.stats.hits + 1 } } } i
+      KAct b i (setClient { b with g := { b.g with stats := { b.g.stats with hits := b.g.stats.hits + 1 } } } i
         (.mgetPool k e.value ks acc iter))
   | mgetPool (k v ks acc iter g1) : b.cl[i]? = some (.mgetPool k v ks acc iter) →
       g1 = { b.g with pool := g1.pool, bufq := g1.bufq, stats := g1.stats } →
-      CAct b i (mgetNext { b with g := g1 } i ks (acc ++ [some v]) iter)
-  | weightRead : b.cl[i]? = some .weightRead → CAct b i (finishCall b i (.weight b.g.adm.used))
+      KAct b i (mgetNext { b with g := g1 } i ks (acc ++ [some v]) iter)
+  | weightRead : b.cl[i]? = some .weightRead → KAct b i (finishCall b i (.weight b.g.adm.used))
   | upAbsentPut (k v w ttl rm val weight) : b.cl[i]? = some (.upUpdate k v w ttl rm) → b.g.store.get? k = none →
       v = some val → upsertW b.g.cfg v w ttl = some weight → 0 < weight →
-      CAct b i (setClient b i (.idNext k val weight ttl))
+      KAct b i (setClient b i (.idNext k val weight ttl))
   | upAbsentPanic (k v w ttl rm p) : b.cl[i]? = some (.upUpdate k v w ttl rm) → b.g.store.get? k = none →
-      CAct b i (finishCall b i (.panic p))
+      KAct b i (finishCall b i (.panic p))
   | upOverflow (k v w ttl rm e) : b.cl[i]? = some (.upUpdate k v w ttl rm) → b.g.store.get? k = some e →
-      upExpiry b.g.now ttl rm e.expiry = none → CAct b i (finishCall b i (.panic .timeOverflow))
+      upExpiry b.g.now ttl rm e.expiry = none → KAct b i (finishCall b i (.panic .timeOverflow))
   | upFound (k v w ttl rm e exp) : b.cl[i]? = some (.upUpdate k v w ttl rm) → b.g.store.get? k = some e →
       upExpiry b.g.now ttl rm e.expiry = some exp →
-      CAct b i (setClient { b with g := { b.g with store := b.g.store.set k { e with expiry := exp, value := v.getD e.value } } } i
+      KAct b i (setClient { b with g := { b.g with store := b.g.store.set k { e with expiry := exp, value := v.getD e.value } } } i
         (.upWeightOf e.id (upsertW b.g.cfg v w ttl) e.expiry exp))
   | upWAdded (id uw n) : b.cl[i]? = some (.upWeightOf id uw none (some n)) →
-      CAct b i (setClient b i (.upTtlPut id n (deriveAdd b id uw)))
+      KAct b i (setClient b i (.upTtlPut id n (deriveAdd b id uw)))
   | upWDeleted (id uw e) : b.cl[i]? = some (.upWeightOf id uw (some e) none) →
-      CAct b i (setClient b i (.upTtlDelete id e (deriveDel b id uw)))
+      KAct b i (setClient b i (.upTtlDelete id e (deriveDel b id uw)))
   | upWUpdated (id uw e n) : b.cl[i]? = some (.upWeightOf id uw (some e) (some n)) → e ≠ n →
-      CAct b i (setClient b i (.upTtlRemove id e n uw))
+      KAct b i (setClient b i (.upTtlRemove id e n uw))
   | upWNothing (id uw old new) : b.cl[i]? = some (.upWeightOf id uw old new) →
-      typeOfExpiryUpdate old new = .nothing → CAct b i (upAfterIndex b i id uw)
-  | upTtlPut (id e uw) : b.cl[i]? = some (.upTtlPut id e uw) → CAct b i (upAfterIndex { b with g := ttlPut b.g id e } i id uw)
+      typeOfExpiryUpdate old new = .nothing → KAct b i (upAfterIndex b i id uw)
+  | upTtlPut (id e uw) : b.cl[i]? = some (.upTtlPut id e uw) → KAct b i (upAfterIndex { b with g := ttlPut b.g id e } i id uw)
   | upTtlDelete (id e uw) : b.cl[i]? = some (.upTtlDelete id e uw) →
-      CAct b i (upAfterIndex { b with g := ttlDelete b.g id e } i id uw)
+      KAct b i (upAfterIndex { b with g := ttlDelete b.g id e } i id uw)
   | upTtlRemove (id old new uw) : b.cl[i]? = some (.upTtlRemove id old new uw) →
-      CAct b i (setClient { b with g := ttlDelete b.g id old } i (.upTtlInsert id new uw))
+      KAct b i (setClient { b with g := ttlDelete b.g id old } i (.upTtlInsert id new uw))
   | upTtlInsert (id new uw) : b.cl[i]? = some (.upTtlInsert id new uw) →
-      CAct b i (upAfterIndex { b with g := ttlPut b.g id new } i id uw)
+      KAct b i (upAfterIndex { b with g := ttlPut b.g id new } i id uw)
   | refMiss (k st) : b.cl[i]? = some (.refStore k) → (∀ e, b.g.store.get? k = some e → e.alive b.g.now = false) →
-      CAct b i (finishCall { b with g := { b.g with stats := st } } i (.value none))
+      KAct b i (finishCall { b with g := { b.g with stats := st } } i (.value none))
   | refHit (k e) : b.cl[i]? = some (.refStore k) → b.g.store.get? k = some e → e.alive b.g.now = true →
-      CAct b i (setClient { b with g := { b.g with stats := { b.g.stats with hits := b.g.stats.hits + 1 } },
+      KAct b i (setClient { b with g := { b.g with stats := { b.g.stats with hits := b.g.stats.hits + 1 } },
                                     storeReaders := (i, storeShardOf b k) :: b.storeReaders } i (.refPool k e.value))
   | refPool (k v g1) : b.cl[i]? = some (.refPool k v) →
       g1 = { b.g with pool := g1.pool, bufq := g1.bufq, stats := g1.stats } →
-      CAct b i (finishCall { b with g := g1, storeReaders := b.storeReaders.filter (fun p => p.1 != i) } i (.value (some v)))
+      KAct b i (finishCall { b with g := g1, storeReaders := b.storeReaders.filter (fun p => p.1 != i) } i (.value (some v)))
 
 theorem clientAct_cact {b b' : BState} {i : Nat} {o o' : Oracle} (h : clientAct b i o = .ok (b', o')) :
-    CAct b i b' := by
+    KAct b i b' := by
   unfold clientAct at h
   simp only [] at h
   split at h
@@ -457,7 +457,7 @@ structure NoShut (b : BState) : Prop where
 /-- every action of Layer B, thread by thread -/
 inductive BAct (b : BState) : Act → BState → Prop where
   | issue (i : Nat) (r : Req) : b.cl[i]? = some .idle → BAct b (.issue i r) (setClient b i (.start r))
-  | client (i : Nat) (b' : BState) : CAct b i b' → BAct b (.client i) b'
+  | client (i : Nat) (b' : BState) : KAct b i b' → BAct b (.client i) b'
   | worker (b' : BState) : WTrans b b' → BAct b .worker b'
   | sweeper (v : Option Nat) (b' : BState) : STrans b b' → BAct b (.sweeper v) b'
   | consumer (g' : State) : g' = { b.g with bufq := g'.bufq, lfu := g'.lfu, consumerAlive := g'.consumerAlive } →
@@ -505,7 +505,7 @@ theorem getElem?_set_cases {cl : List CPc} {i j : Nat} {x pc : CPc} (h : (cl.set
   · rw [List.getElem?_set_ne (Ne.symm hj)] at h; exact Or.inr ⟨hj, h⟩
 
 /-- the shape of the state after a client action: the client's new position, everything a client action never touches -/
-structure CFrame (b b' : BState) (i : Nat) (pc' : CPc) : Prop where
+structure KFrame (b b' : BState) (i : Nat) (pc' : CPc) : Prop where
   cl : b'.cl = b.cl.set i pc'
   w : b'.w = b.w
   sw : b'.sw = b.sw
@@ -518,18 +518,18 @@ structure CFrame (b b' : BState) (i : Nat) (pc' : CPc) : Prop where
 theorem cframe_upAfterIndex {b b0 : BState} {i id : Nat} {uw : Option Int} (hcl : b0.cl = b.cl) (hw : b0.w = b.w)
     (hsw : b0.sw = b.sw) (hcfg : b0.g.cfg = b.g.cfg) (hnow : b0.g.now = b.g.now) (hadm : b0.g.adm = b.g.adm)
     (hsh : b0.g.shutting = b.g.shutting) (hwk : b0.g.worker = b.g.worker) :
-    ∃ pc', CFrame b (upAfterIndex b0 i id uw) i pc' ∧
+    ∃ pc', KFrame b (upAfterIndex b0 i id uw) i pc' ∧
       (pc' = .idle ∨ ∃ w, uw = some w ∧ 0 < w ∧ pc' = .send (.updateWeight id w)) := by
   rcases upAfterIndex_cases b0 i id uw with ⟨p, w, _, e⟩ | ⟨w, hu, hpos, e⟩ | ⟨_, e⟩ <;> rw [e]
   · exact ⟨.idle, ⟨by simp [finishCall, hcl], hw, hsw, hcfg, hnow, hadm, hsh, hwk⟩, Or.inl rfl⟩
   · exact ⟨_, ⟨by simp [setClient, hcl], hw, hsw, hcfg, hnow, hadm, hsh, hwk⟩, Or.inr ⟨w, hu, hpos, rfl⟩⟩
   · exact ⟨.idle, ⟨by simp [spotFinish, finishCall, hcl], hw, hsw, hcfg, hnow, hadm, hsh, hwk⟩, Or.inl rfl⟩
 
-theorem cframe_mgetNext {b b0 : BState} {i : Nat} {ks : List Nat} {acc : List (Option Nat)} {iter : Bool}
+theorem kframe_mgetNext {b b0 : BState} {i : Nat} {ks : List Nat} {acc : List (Option Nat)} {iter : Bool}
     (hcl : b0.cl = b.cl) (hw : b0.w = b.w)
     (hsw : b0.sw = b.sw) (hcfg : b0.g.cfg = b.g.cfg) (hnow : b0.g.now = b.g.now) (hadm : b0.g.adm = b.g.adm)
     (hsh : b0.g.shutting = b.g.shutting) (hwk : b0.g.worker = b.g.worker) :
-    ∃ pc', CFrame b (mgetNext b0 i ks acc iter) i pc' ∧
+    ∃ pc', KFrame b (mgetNext b0 i ks acc iter) i pc' ∧
       (pc' = .idle ∨ ∃ k rest, pc' = .mgetStore k rest acc iter) := by
   rcases mgetNext_spec b0 i ks acc iter with ⟨out, e⟩ | ⟨k, rest, _, _, e⟩ <;> rw [e]
   · exact ⟨.idle, ⟨by simp [finishCall, hcl], hw, hsw, hcfg, hnow, hadm, hsh, hwk⟩, Or.inl rfl⟩
@@ -630,7 +630,7 @@ theorem pcstep_upAfterIndex {b b0 : BState} {i id : Nat} {uw : Option Int} {pc :
     (hsw : b0.sw = b.sw) (hcfg : b0.g.cfg = b.g.cfg) (hnow : b0.g.now = b.g.now) (hadm : b0.g.adm = b.g.adm)
     (hsh : b0.g.shutting = b.g.shutting) (hwk : b0.g.worker = b.g.worker) (hq : b0.g.queue = b.g.queue)
     (ha : b0.g.acks = b.g.acks) (hn : b0.g.nextId = b.g.nextId) (hres : b0.res = b.res) (ht : pc.tail? = some (id, uw)) :
-    ∃ pc', CFrame b (upAfterIndex b0 i id uw) i pc' ∧ QEff b (upAfterIndex b0 i id uw) pc ∧ pc'.shutPos = false ∧
+    ∃ pc', KFrame b (upAfterIndex b0 i id uw) i pc' ∧ QEff b (upAfterIndex b0 i id uw) pc ∧ pc'.shutPos = false ∧
       PcStep b (upAfterIndex b0 i id uw) i pc pc' ∧ (pc' ≠ .idle → (upAfterIndex b0 i id uw).res = b.res) ∧
       (upAfterIndex b0 i id uw).g.nextId = b.g.nextId := by
   rcases upAfterIndex_cases b0 i id uw with ⟨p, w, hu, e⟩ | ⟨w, hu, hpos, e⟩ | ⟨hu, e⟩ <;> rw [e]
@@ -644,13 +644,13 @@ theorem pcstep_upAfterIndex {b b0 : BState} {i id : Nat} {uw : Option Int} {pc :
         (by simp [spotFinish, finishCall, ha]), fun h => absurd rfl h, hn⟩
 
 /-- **one client action outside `shutdown()`**: the client's old and new position, the frame, the queue effect -/
-theorem cact_frame {b b' : BState} {i : Nat} (h : CAct b i b') (hsh : b.g.shutting = false)
+theorem cact_frame {b b' : BState} {i : Nat} (h : KAct b i b') (hsh : b.g.shutting = false)
     (hns : ∀ pc, b.cl[i]? = some pc → pc.shutPos = false) :
-    ∃ pc pc', b.cl[i]? = some pc ∧ CFrame b b' i pc' ∧ QEff b b' pc ∧ pc'.shutPos = false ∧ PcStep b b' i pc pc' ∧
+    ∃ pc pc', b.cl[i]? = some pc ∧ KFrame b b' i pc' ∧ QEff b b' pc ∧ pc'.shutPos = false ∧ PcStep b b' i pc pc' ∧
       (pc' ≠ .idle → b'.res = b.res) ∧ ((∀ k v w ttl, pc ≠ .idNext k v w ttl) → b'.g.nextId = b.g.nextId) := by
   have F : ∀ {b0 : BState} {pc' : CPc}, b0.cl = b.cl.set i pc' → b0.w = b.w → b0.sw = b.sw → b0.g.cfg = b.g.cfg →
       b0.g.now = b.g.now → b0.g.adm = b.g.adm → b0.g.shutting = b.g.shutting → b0.g.worker = b.g.worker →
-      CFrame b b0 i pc' := fun h1 h2 h3 h4 h5 h6 h7 h8 => ⟨h1, h2, h3, h4, h5, h6, h7, h8⟩
+      KFrame b b0 i pc' := fun h1 h2 h3 h4 h5 h6 h7 h8 => ⟨h1, h2, h3, h4, h5, h6, h7, h8⟩
   cases h
   case shutting r hpc hs => rw [hsh] at hs; cases hs
   case shut pc hpc hs => rw [hns pc hpc] at hs; cases hs
@@ -934,7 +934,7 @@ structure Bud (D : Int) (β : Nat → Int) (b : BState) : Prop where
 
 /-- a client moves from `pc` to `pc'`; the budget may grow -/
 theorem Bud.client {D : Int} {β β' : Nat → Int} {b b' : BState} {i : Nat} {pc pc' : CPc} (hb : Bud D β b)
-    (hpc : b.cl[i]? = some pc) (hf : CFrame b b' i pc') (hq : QEff b b' pc)
+    (hpc : b.cl[i]? = some pc) (hf : KFrame b b' i pc') (hq : QEff b b' pc)
     (hmono : ∀ x, β x ≤ β' x) (hzero : ∀ id, b'.g.nextId ≤ id → β' id = 0) (hbud : pcBud β' pc')
     (htot : sumTo β' b'.g.nextId + pc'.pend b.g.cfg ≤ sumTo β b.g.nextId + pc.pend b.g.cfg) : Bud D β' b' := by
   refine ⟨fun id => Int.le_trans (hb.nonneg id) (hmono id), hzero, ?_, ?_, ?_, ?_, ?_, ?_⟩
@@ -966,7 +966,7 @@ theorem Bud.client {D : Int} {β β' : Nat → Int} {b b' : BState} {i : Nat} {p
 
 /-- … the budget stays -/
 theorem Bud.client0 {D : Int} {β : Nat → Int} {b b' : BState} {i : Nat} {pc pc' : CPc} (hb : Bud D β b)
-    (hpc : b.cl[i]? = some pc) (hf : CFrame b b' i pc') (hq : QEff b b' pc) (hn : b'.g.nextId = b.g.nextId)
+    (hpc : b.cl[i]? = some pc) (hf : KFrame b b' i pc') (hq : QEff b b' pc) (hn : b'.g.nextId = b.g.nextId)
     (hbud : pcBud β pc') (hpend : pc'.pend b.g.cfg ≤ pc.pend b.g.cfg) : Bud D β b' :=
   hb.client hpc hf hq (fun _ => Int.le_refl _) (by rw [hn]; exact hb.zero) hbud (by rw [hn]; omega)
 
@@ -992,7 +992,7 @@ theorem upExpiry_added {now : Nat} {ttl : Option Nat} {rm : Bool} {n : Nat}
 
 /-- **the budget invariant under a client action** -/
 theorem bud_client {D : Int} {β : Nat → Int} {b b' : BState} {i : Nat} (hb : Bud D β b) (hE : 0 ≤ b.g.cfg.ttlEntry)
-    (hI : BInv b) (hns : NoShut b) (hc : CAct b i b') : ∃ β', Bud D β' b' := by
+    (hI : BInv b) (hns : NoShut b) (hc : KAct b i b') : ∃ β', Bud D β' b' := by
   obtain ⟨pc, pc', hpc, hf, hq, hsp, hstep, hres, hnid⟩ := cact_frame hc hns.flag (fun pc h => hns.cl i pc h)
   have hp0 : ∀ pc : CPc, 0 ≤ pc.pend b.g.cfg := CPc.pend_nonneg hE
   have hpb := hb.cl i pc hpc
